@@ -7,10 +7,12 @@
    unsigned min is exactly the least member (C22_min_exact); unsigned eval lists members only (C22_eval_members); max is an
    upper bound and min a lower bound of every member in either signedness (C22_max_upper_partial, C22_min_lower_partial:
    partial, because max is not always a member -- C22_max_not_member_refuted, a known finding).
-   least_upper_bound of three or more intervals, meet, widening and solution are not modelled; they are covered by the
+   pseudo_join with either value of smart_join contains both operands (C22_join), and least_upper_bound of any number of
+   intervals -- every rotation of the sorted operands folded with pseudo_join, the candidate with the fewest values -- contains
+   every operand (C22_lub).  Meet, widening and solution are not modelled; they are covered by the
    sweep of the real code only. *)
 Require Import CV.Model.PyPrelude CV.Model.SI CV.Model.SIUnion CV.Proofs.SISound CV.Proofs.SIUnionSound.
-Require Import CV.Model.SICmp CV.Model.SIQuery CV.Proofs.SIQuerySound.
+Require Import CV.Model.SICmp CV.Model.SIQuery CV.Proofs.SIQuerySound CV.Proofs.SILubSound.
 From Coq Require Import ZArith List.
 Open Scope Z_scope.
 
@@ -51,3 +53,13 @@ Theorem C22_max_not_member_refuted :
   let a := mkSI 4 2 0 5 false in wf a /\ si_max false a = Ok 5 /\ ~ In 5 (members a).
 Proof. exact max_not_member_refuted. Qed.
 Print Assumptions C22_max_not_member_refuted.
+
+Theorem C22_join : forall smart a b, wf a -> wf b -> bits a = bits b ->
+  exists r, si_join smart a b = Ok r /\ wf r /\ bits r = bits a /\ forall x, gamma a x \/ gamma b x -> gamma r x.
+Proof. exact join_sound. Qed.
+Print Assumptions C22_join.
+
+Theorem C22_lub : forall w l r, Forall (okw w) l -> si_lub l = Ok r ->
+  okw w r /\ forall a v, In a l -> gamma a v -> gamma r v.
+Proof. exact lub_sound. Qed.
+Print Assumptions C22_lub.
